@@ -1078,6 +1078,10 @@ class Exec:
 
     def equal(self, a, b, fr=None):
         heap = fr.heap if fr is not None else None
+        for x in (a, b):
+            if isinstance(x, tuple) and len(x) == 3 and x[0] in ("method", "localfn"):
+                # an attribute of a constructed node / sequence that was never called (`result.columns == ...`): no meaning here
+                raise Unsupported(f"comparison with the unevaluated attribute {x[2] if x[0] == 'method' else x[1].name!r}")
         if isinstance(a, Ite):
 
             def branch(x, cond):
